@@ -1,0 +1,14 @@
+//go:build verif
+
+package tiered
+
+// verifHook, when set by a verification harness, is called at the scheduling points of the flush
+// worker ("idle": top of the worker loop, "created": after disk.Create in flushData, "unban": before
+// the deferred mem.UnbanEviction of flush). It is compiled in only with the build tag `verif`.
+var verifHook func(point, key string)
+
+func verifPoint(point, key string) {
+	if h := verifHook; h != nil {
+		h(point, key)
+	}
+}
